@@ -4,7 +4,7 @@
    complexes(). *)
 From Coq Require Import String ZArith Bool Arith List.
 From SV Require Import Names NamesFacts ListFacts Rep Fresh Complex Atomic RepInv Homology Filtration FiltProofs Shapes SnapProofs FiltClosed.
-From SV Require Closed ClosedReach.
+From SV Require Closed ClosedReach FiltCinv.
 Import ListNotations.
 
 (* the complex seen at index i consists of exactly the simplices of the filtration whose birth
@@ -56,3 +56,10 @@ Theorem C13_view_closed_under_faces :
   f_contains (at_index f i) t = true.
 Proof. exact view_closed_under_faces. Qed.
 Print Assumptions C13_view_closed_under_faces.
+
+(* the complex under the filtration is closed (a simplex of order k >= 1 has exactly k+1 faces) at every
+   point of every filtration history -- the hypothesis of the C14 snapshot theorems *)
+Theorem C13_filtration_histories_are_closed :
+  forall uid i0 ops, Closed.cinv (f_rep (fold_left fstep ops (new_filt uid i0))).
+Proof. exact FiltCinv.filtration_history_cinv. Qed.
+Print Assumptions C13_filtration_histories_are_closed.
